@@ -227,8 +227,14 @@ func (w *world) initDir(dir string) {
 // state (parameter table, voting-power rank) is loaded from the genesis state as a booting DPoS node does.
 func (w *world) newNode(name string, nc nodeConf) *node {
 	w.nnode++
-	n := &node{name: name, dir: filepath.Join(w.root, fmt.Sprintf("%s%d", name, w.nnode))}
-	w.initDir(n.dir)
+	dir := filepath.Join(w.root, fmt.Sprintf("%s%d", name, w.nnode))
+	w.initDir(dir)
+	return w.openNode(name, dir, nc)
+}
+
+// openNode starts a node on an existing data directory (a node that boots, or boots again after a stop).
+func (w *world) openNode(name, dir string, nc nodeConf) *node {
+	n := &node{name: name, dir: dir}
 	system.VerifC02BlankGlobals()
 	cfg := config.NewServerContext("", "").GetDefaultConfig().(*config.Config)
 	cfg.DbType = "memorydb"
@@ -1371,6 +1377,17 @@ func childMain(jobFile string) {
 	system.VerifC02InstallGlobals(n.g)
 	enc := json.NewEncoder(os.Stdout)
 	for i, hexBlk := range job.Blocks {
+		if !job.Warp && i > 0 && i == len(job.Blocks)/2 {
+			// the node is stopped and started again on its data directory: everything it keeps in memory
+			// (parameter table, voting-power rank) is rebuilt by the real boot sequence from the stored state
+			n.cs.BeforeStop()
+			n = w.openNode("C", n.dir, nodeConf{coinbase: cbAccount(0xCE), verifiers: 2, workers: 2})
+			system.VerifC02InstallGlobals(n.g)
+			if best, err := n.cs.GetBestBlock(); err != nil || best.BlockNo() != uint64(i) {
+				enc.Encode(childAnswer{I: i, Err: fmt.Sprintf("after a restart the node's best block is not block %d (%v)", i, err)})
+				break
+			}
+		}
 		b, _ := hex.DecodeString(hexBlk)
 		blk := &types.Block{}
 		ans := childAnswer{I: i}
